@@ -9,7 +9,13 @@ spec -> code : FrameMC.tla enumerates the catalogue of Frame.tla (one record per
                empty; the special elements at the same positions in every argument, so that e.g.
                (data: nan, weights: zero) is "NaN exactly where the weight is zero").  The value classes
                drive the data-dependent branches of a callee (clipping, masking, wrapping, sentinel
-               replacement, sorting, weight normalisation).
+               replacement, sorting, weight normalisation).  Further dimensions: element kinds whose
+               values are NOT exactly convertible to float64 and back (longdouble with non-double values,
+               uint64 above 2^63, int64 above 2^53, float16, complex128, object arrays of python numbers);
+               a size class per argument (6 elements, or just over 2^25 bytes for the cheap entry points:
+               all arguments large, or one large and the others small); and DELIBERATE rejections - option
+               values, value classes and size mismatches on which the callee is documented to raise, also
+               with large arguments (a rejected call is a stutter step on its arguments).
 code -> spec : every argument is snapshotted before and after the call (digest of its bytes, digest
                of the whole buffer it lives in, dtype incl. byte order, flags + strides + shape);
                the recorded invocations are judged by FrameTrace.tla: whatever the call returned
@@ -819,8 +825,11 @@ def run(ctx):
                 "layout assignments (every admissible [order, contiguity, kind] of one parameter with the others in base layout; one "
                 "order/contiguity for all parameters%s) with ordinary values, plus value-class assignments in %s-d (classes nan, inf, zero, "
                 "neg, equal, dup, ext, empty as far as the role and element kind admit them: %s); each argument built in that layout with "
-                "such values and snapshotted before/after; an invocation is distinct by (call, option, ndim, layouts, value classes) and "
-                "non-trivial always (%d of %d raised, the frame condition applies to them too)"
+                "such values and snapshotted before/after; an invocation is distinct by (call, option, ndim, layouts, value classes, sizes) and "
+                "non-trivial always (%d of %d raised, the frame condition applies to them too); plus one parameter in each exotic element "
+                "kind (longdouble / uint64 > 2^63 / int64 > 2^53 / float16 / complex128 / object, values not exactly convertible to "
+                "float64); plus large arguments (> 2^25 bytes, all or one of them, non-native) for the cheap entry points, with ordinary "
+                "values and with the documented rejections (duplicate first array, missing field, closed file, empty range, size mismatch)"
                 % (len(completed), sorted(B["NDims"]), "; every order/contiguity pair for two parameters" if B["Pairwise"] else "",
                    sorted(B["ValNDims"]),
                    "each class of one parameter in every order x contiguity and in every element kind, the same class in all parameters, every "
@@ -838,6 +847,9 @@ def run(ctx):
         "reversed views are taken from the first half of a twice-as-large buffer so that C code that ignores strides cannot read outside it",
         "parameters handed to C code without any conversion (HTM.bincount htmrev2) are not varied",
         "value classes are offered to a role only where the callee accepts them: search radii, dz and scale factors are never NaN, infinite, negative or of extreme magnitude (a pair search over the whole mesh), a right-ascension difference handed to wrap_ra_diff is not of extreme magnitude (it is wrapped 360 degrees at a time and 1e300 never gets there), NaN/inf need a floating kind, negative values a signed one; int32 'extreme' data are all next to 2**31 rather than of both signs (a unit-bin histogram of the full int32 range would need 2**32 bins)",
+        "exotic element kinds are offered to every parameter that takes all numeric kinds (the floating ones to float-only parameters); integers beyond 2^53 not to the role that excludes extreme magnitudes; they carry ordinary values only; object arrays are snapshotted by the type and repr of their elements",
+        "large arguments (one element more than 2^25 bytes of the smallest element among them) only for entry points without a python loop over the elements, per-element root finding or pair search (Frame.tla FrBig; quick: FrBigQuick)",
+        "which invocations are deliberate rejections is declared in the catalogue (FrExpectReject); the verdict does not depend on whether they raise - the statement does not say when a call must raise - the counts are reported in the notes",
         "while a catalogue call runs the address space is capped at 12 GiB and a 120 s alarm is armed: an absurd allocation ends as MemoryError in the callee (an accepted outcome), a call that never returns as a machinery error",
     ]
 
